@@ -12,7 +12,7 @@ import itertools
 from harness import core
 
 MOD = 'harness.props.c10'
-TEMPS = [0.0, 0.05, 0.5, 2.0]
+TEMPS = [0.0, 0.05, 0.5, 2.0, 1.0]
 
 
 def attr_of(c):
@@ -246,7 +246,7 @@ def gen_cases(run):
 
 def check(run):
     run.rule = ('(A) real fit_temperature on a fitted two-leaf model with the metric scripted: EXHAUSTIVE over score alphabet {0,1,2}, all '
-                'ordered candidate lists of length 1..3 (thorough 4) from {0, 0.05, 0.5, 2.0} (so with/without 0 in any position), both '
+                'ordered candidate lists of length 1..3 (thorough 4) from {0, 0.05, 0.5, 2.0, 1.0} (so with/without 0 in any position), both '
                 'directions, initial temperature none / first / last candidate / a non-candidate; random lists with repeats, several hard '
                 'candidates and ties; (B) real fits with tuning for mse/rmse/mae/brier/logloss/accuracy/f1, every candidate score '
                 'recomputed from the public predict/predict_proba. Non-trivial = candidate scores not all equal.')
